@@ -434,6 +434,47 @@ func c14Changed(u fw.Unit) fw.Result {
 			a.outcome(js(res))
 		})
 	}
+	// values of types Go cannot compare with == (arrays and objects of a decoded JSON payload), and text
+	vals2 := []any{[]any{1.0}, []any{2.0}, map[string]any{"x": 1.0}, "s", nil}
+	q1b := "SELECT k, changed_col(true, v) OVER (PARTITION BY k) AS cc, changed_col(false, v) OVER (PARTITION BY k) AS cf, had_changed(true, v) OVER (PARTITION BY k) AS hc FROM stream"
+	for L := 1; L <= 4; L++ {
+		sequences(L, 2*len(vals2), func(ix []int) {
+			idx++
+			if idx%sp.Shards != sp.Shard {
+				return
+			}
+			var rows []Row
+			for i, x := range ix {
+				rows = append(rows, Row{"k": []string{"a", "b"}[x/len(vals2)], "v": copyVal(vals2[x%len(vals2)]), "id": i + 1})
+			}
+			res, execErr, status, _ := syncEval(q1b, rows)
+			a.r.Evaluations++
+			a.r.States++
+			a.r.Transitions += int64(len(rows))
+			a.r.Nontrivial++
+			cs := map[string]any{"sql": q1b, "rows": rows}
+			if execErr != "" || status != sched.StatusOK {
+				a.fail("C14|changed|exec", execErr+" "+status.String(), cs, nil, nil)
+				return
+			}
+			cc, cf, ch := map[string]*st{}, map[string]*st{}, map[string]*st{}
+			for i, row := range rows {
+				k := row["k"].(string)
+				if cc[k] == nil {
+					cc[k], cf[k], ch[k] = &st{}, &st{}, &st{}
+				}
+				w1, _ := step(cc[k], true, row["v"])
+				w2, _ := step(cf[k], false, row["v"])
+				hcOpen := row["v"] == nil && !ch[k].has // a NULL before the partition's first usable value: change or not is left open
+				_, w3 := step(ch[k], true, row["v"])
+				g := res[i].Row
+				if g == nil || js(g["cc"]) != js(w1) || js(g["cf"]) != js(w2) || !hcOpen && js(g["hc"]) != js(w3) {
+					a.fail("C14|changed|container-values", fmt.Sprintf("%s: row %d gives %s, reference cc=%s cf=%s hc=%v; rows %s", q1b, i+1, js(g), js(w1), js(w2), w3, js(rows)), cs, nil, g)
+					return
+				}
+			}
+		})
+	}
 	for L := 1; L <= 4; L++ {
 		sequences(L, 12, func(ix []int) {
 			idx++
